@@ -28,7 +28,7 @@ import numpy as np
 
 from ..core import REPO, VERIF, Run
 from ..par import pmap
-from ..refeval import basis_values, orthonormal_orbitals
+from ..refeval import basis_values, orthonormal_orbitals, value_bounds
 from ..tlc import run_tlc, validate_traces
 
 LEVEL = "exploration"
@@ -140,21 +140,44 @@ PROBE0 = np.array([[0.3, -0.2, 0.5], [-0.7, 0.9, 0.1], [1.5, 0.4, -0.6], [2.1, 1
 PROBE = PROBE0
 
 
-def channels(obj):
-    """[(spin, occupation, energy, orbital values at the probe points, error scale)] for every orbital of obj."""
+ANG = 1.8897261246257702
+
+# what one unit in the last printed digit of each writer is worth (read off the format strings of the writers)
+PREC = {
+    "wfn": dict(reld=5e-9, rela=5e-8, dR=5e-9, relc=5e-9),
+    "wfx": dict(reld=5e-15, rela=5e-15, relR=5e-15, relc=5e-15),
+    "molden": dict(absd=5e-11, absa=5e-11, dR=5e-19, relc=1e-16),
+    "molekel": dict(absd=5e-11, absa=5e-11, dR=5e-7 * ANG, absc=5e-13),
+    "fchk": dict(reld=5e-9, rela=5e-9, relR=5e-9, relc=5e-9),
+}
+SAFETY = 4.0
+
+
+def tolerances(obj, coeffs, fmt):
+    """Per orbital and probe point: how far the printed precision of the format may move the orbital value (first order, times
+    SAFETY), plus floating-point noise."""
+    prec = dict(PREC.get(fmt) or PREC["wfn"])
+    prec["dR"] = prec.get("dR", 0.0) + prec.get("relR", 0.0) * float(np.abs(obj.atcoords).max())
+    A, E = value_bounds(obj.obasis, obj.atcoords, PROBE, prec)
+    c = np.abs(coeffs)
+    return SAFETY * ((prec.get("absc", 0.0) + prec.get("relc", 0.0) * c).T @ A + c.T @ E) + 1e-9 * (c.T @ A) + 1e-12
+
+
+def channels(obj, fmt=None):
+    """[(spin, occupation, energy, orbital values at the probe points, tolerance)] for every orbital of obj."""
     mo = obj.mo
     B = basis_values(obj.obasis, obj.atcoords, PROBE)
     out = []
     if mo.kind == "restricted":
         vals = mo.coeffs.T @ B
-        scale = np.abs(mo.coeffs).T @ np.abs(B)
+        scale = tolerances(obj, mo.coeffs, fmt)
         for j in range(mo.norba):
             out.append(("ab", float(mo.occs[j]), float(mo.energies[j]) if mo.energies is not None else 0.0, vals[j], scale[j],
                         float(mo.occsa[j]), float(mo.occsb[j])))
     else:
         for spin, c, occ, en in (("a", mo.coeffsa, mo.occsa, mo.energiesa), ("b", mo.coeffsb, mo.occsb, mo.energiesb)):
             vals = c.T @ B
-            scale = np.abs(c).T @ np.abs(B)
+            scale = tolerances(obj, c, fmt)
             for j in range(c.shape[1]):
                 out.append((spin, float(occ[j]), float(en[j]) if en is not None else 0.0, vals[j], scale[j],
                             float(occ[j]) if spin == "a" else 0.0, float(occ[j]) if spin == "b" else 0.0))
@@ -172,18 +195,14 @@ def spin_orbitals(chs):
     return out
 
 
-TOL = {"molekel": 3e-5, "wfn": 5e-6}
-
-
-def compare(src, back, fmt, tol=None):
-    tol = tol or TOL.get(fmt, 2e-6)
+def compare(src, back, fmt):
     """Compare source and loaded wavefunction as sets of spin orbitals (occupied ones must all be present)."""
     res = {"nuclei_same": True, "orbitals_same": True, "occs_same": True, "energies_same": True, "spin_same": True, "density_same": True}
     if not (np.array_equal(src.atnums, back.atnums) and np.allclose(src.atcoords, back.atcoords, atol=2e-5)
             and np.allclose(src.atcorenums, back.atcorenums, atol=1e-5)):
         res["nuclei_same"] = False
-    s_ch, sB = channels(src)
-    b_ch, bB = channels(back)
+    s_ch, sB = channels(src, fmt)
+    b_ch, bB = channels(back, fmt)
     S, Bk = spin_orbitals(s_ch), spin_orbitals(b_ch)
     stores_virtuals = fmt in ("fchk", "molden", "molekel")
     # a WFN file without the Multiwfn spin extension is ambiguous when no occupation exceeds 1 (documented heuristic)
@@ -193,10 +212,10 @@ def compare(src, back, fmt, tol=None):
         if occ == 0.0 and not stores_virtuals:
             continue
         cands = [k for k, (sp2, _o2, _e2, v2, _s2) in enumerate(Bk) if k not in used and (ignore_spin or sp2 == spin)
-                 and np.all(np.abs(v2 - v) <= tol * (sc + 1e-3) + 1e-9)]
+                 and np.all(np.abs(v2 - v) <= sc)]
         if not cands:
             # is it there under the other spin label / with another occupation?
-            anyspin = [k for k, (sp2, _o2, _e2, v2, _s2) in enumerate(Bk) if k not in used and np.all(np.abs(v2 - v) <= tol * (sc + 1e-3) + 1e-9)]
+            anyspin = [k for k, (sp2, _o2, _e2, v2, _s2) in enumerate(Bk) if k not in used and np.all(np.abs(v2 - v) <= sc)]
             if anyspin:
                 res["spin_same"] = False
                 used.add(anyspin[0])
@@ -306,21 +325,20 @@ def independent_wfx(text):
     return vals
 
 
-def independent_check(src, text, fmt, tol=None):
-    tol = tol or TOL.get(fmt, 2e-6)
+def independent_check(src, text, fmt):
     """Every occupied spatial orbital of the source appears in the file (as read by the independent reader)."""
     try:
         vals = independent_wfn(text) if fmt == "wfn" else independent_wfx(text)
     except Exception:
         return False
-    s_ch, _ = channels(src)
+    s_ch, _ = channels(src, fmt)
     for spin, occ, en, v, sc, oa, ob in s_ch:
         if occ == 0.0:
             continue
         # a spatial orbital may be stored once (restricted) or as an alpha and a beta orbital: the occupations add up
         # ... and an alpha and a beta orbital of the source may be the same function of space
-        tot = sum(o2 for o2, _e2, v2 in vals if np.all(np.abs(v2 - v) <= tol * (sc + 1e-3) + 1e-9))
-        want = sum(c2[1] for c2 in s_ch if np.all(np.abs(c2[3] - v) <= tol * (sc + 1e-3) + 1e-9))
+        tot = sum(o2 for o2, _e2, v2 in vals if np.all(np.abs(v2 - v) <= sc))
+        want = sum(c2[1] for c2 in s_ch if np.all(np.abs(c2[3] - v) <= sc))
         if abs(tot - want) > 1e-6:
             return False
     return True
